@@ -279,7 +279,15 @@ pub struct EnvPlan {
     /// (`sparse ids`: non-adjacent, large variable indices)
     #[serde(default)]
     pub ids: Vec<usize>,
+    /// false: the clients do not keep handles to the two leaves (nothing but the environment itself
+    /// and the diagrams derived from them references `True` / `False`)
+    #[serde(default = "default_true")]
+    pub hold_leaves: bool,
     pub steps: Vec<Step>,
+}
+
+fn default_true() -> bool {
+    true
 }
 
 // ---------------------------------------------------------------------------------------------
@@ -398,9 +406,12 @@ pub fn gen_plan(rng: &mut Prng, property: &str, tier: &Tier) -> EnvPlan {
     };
 
     let cross_env = rng.coin();
+    // C19: a third of the runs are driven by set clients alone (no raw-API handle is kept alive)
+    let sets_only = property == "C19" && rng.chance(1, 3);
+    let hold_leaves = !(sets_only || rng.chance(1, 6));
     let mut steps = Vec::with_capacity(nsteps);
     // every run starts by building a few variables so that operands are not all constants
-    for i in 0..nvars.min(3) {
+    for i in 0..if sets_only { 0 } else { nvars.min(3) } {
         steps.push(Step {
             sym_fault: None,
             foreign: 0,
@@ -473,10 +484,10 @@ pub fn gen_plan(rng: &mut Prng, property: &str, tier: &Tier) -> EnvPlan {
                 continue;
             }
         }
-        let keep = !(faults.noise && rng.chance(faults.rate, 100));
+        let keep = !sets_only && !(faults.noise && rng.chance(faults.rate, 100));
         // client kind: client 0 is always a raw-API client; others may be set / formula clients
-        let family = if client > 0 || clients == 1 {
-            if world == WorldKind::U && (set_heavy && rng.chance(2, 3) || rng.chance(1, 8)) {
+        let family = if client > 0 || clients == 1 || sets_only {
+            if world == WorldKind::U && (sets_only && rng.chance(9, 10) || set_heavy && rng.chance(2, 3) || rng.chance(1, 8)) {
                 1
             } else if world == WorldKind::N && (formula_heavy && rng.chance(1, 2) || rng.chance(1, 6)) {
                 2
@@ -623,6 +634,7 @@ pub fn gen_plan(rng: &mut Prng, property: &str, tier: &Tier) -> EnvPlan {
         set_bits,
         clients,
         ids,
+        hold_leaves,
         steps,
     }
 }
@@ -1173,9 +1185,11 @@ impl<'p, W: World> Exec<'p, W> {
         };
         let f = ex.env.mk_const(false);
         let t = ex.env.mk_const(true);
-        let (ft, tt) = (ex.walk(&f).unwrap_or(0), ex.walk(&t).unwrap_or(0));
-        ex.handles.insert(0, Handle { rc: f, tt: ft });
-        ex.handles.insert(1, Handle { rc: t, tt });
+        if plan.hold_leaves {
+            let (ft, tt) = (ex.walk(&f).unwrap_or(0), ex.walk(&t).unwrap_or(0));
+            ex.handles.insert(0, Handle { rc: f, tt: ft });
+            ex.handles.insert(1, Handle { rc: t, tt });
+        }
         ex
     }
 
@@ -1201,16 +1215,21 @@ impl<'p, W: World> Exec<'p, W> {
     /// Ids are stable, so blanking an unrelated step of a plan does not re-route other operands.
     fn pick_id(&self, sel: usize) -> usize {
         let target = sel % (self.cur_step + 2);
-        *self
-            .handles
+        self.handles
             .range(..=target)
             .next_back()
-            .map(|(k, _)| k)
-            .expect("handle 0 is never dropped")
+            .map(|(k, _)| *k)
+            .or_else(|| self.handles.keys().next().copied())
+            .unwrap_or(usize::MAX)
     }
 
+    /// The handle a selector names; when the clients hold no handle at all, a leaf fetched from
+    /// the environment on the spot (a panic there is reported by the caller's catch).
     fn pick(&self, sel: usize) -> Rc<BDD<W::S>> {
-        Rc::clone(&self.handles[&self.pick_id(sel)].rc)
+        match self.handles.get(&self.pick_id(sel)) {
+            Some(h) => Rc::clone(&h.rc),
+            None => self.env.mk_const(sel & 1 == 1),
+        }
     }
 
     fn keep(&mut self, rc: Rc<BDD<W::S>>, tt: u64) {
@@ -1458,7 +1477,19 @@ impl<'p, W: World> Exec<'p, W> {
     fn raw_step(&mut self, step_no: usize, step: &Step) -> Result<(), Violation> {
         let op = &step.op;
         let opname = op.name();
-        let mut args: Vec<Rc<BDD<W::S>>> = op.selectors().iter().map(|s| self.pick(*s)).collect();
+        let picked = catch(|| op.selectors().iter().map(|s| self.pick(*s)).collect::<Vec<Rc<BDD<W::S>>>>());
+        let mut args: Vec<Rc<BDD<W::S>>> = match picked {
+            Caught::Ok(a) => a,
+            Caught::Panic(m, l) => {
+                let (p, o) = match self.prop() {
+                    "C19" => ("C19", "S5"),
+                    "C02" => ("C02", "K2"),
+                    _ => ("C13", "I4"),
+                };
+                return Err(viol(p, o, &format!("mk_const@{l}"), step_no, format!("fetching a leaf from the environment panicked: {m} @ {l}")));
+            }
+            _ => return Ok(()),
+        };
         if self.prop() == "C02" && step.foreign != 0 {
             let names = self.names.clone();
             for (i, a) in args.iter_mut().enumerate().take(6) {
@@ -1685,7 +1716,7 @@ impl<'p, W: World> Exec<'p, W> {
         match &step.op {
             Op::DropHandle(s) => {
                 let k = self.pick_id(*s);
-                if k >= 2 {
+                if k >= 2 && self.handles.contains_key(&k) {
                     let h = self.handles.remove(&k).expect("picked id is live");
                     self.log.retain(|e| {
                         !e.args.iter().any(|a| Rc::ptr_eq(a, &h.rc))
@@ -1698,10 +1729,12 @@ impl<'p, W: World> Exec<'p, W> {
             }
             Op::CloneHandle(s) => {
                 let k = self.pick_id(*s);
-                let (rc, tt) = (Rc::clone(&self.handles[&k].rc), self.handles[&k].tt);
-                self.keep(rc, tt);
-                bump(&mut self.stats, "fault.clone-handle");
-                self.faults_fired += 1;
+                if let Some(h) = self.handles.get(&k) {
+                    let (rc, tt) = (Rc::clone(&h.rc), h.tt);
+                    self.keep(rc, tt);
+                    bump(&mut self.stats, "fault.clone-handle");
+                    self.faults_fired += 1;
+                }
                 Ok(true)
             }
             Op::AllocShift(sizes) => {
@@ -2005,7 +2038,9 @@ impl<'p> Exec<'p, UWorld> {
             }
             Op::SetFromBdd(sel) => {
                 if nsets < 4 {
-                    let h = self.pick(*sel);
+                    let Caught::Ok(h) = catch(|| self.pick(*sel)) else {
+                        return Err(viol("C19", "S5", "mk_const", step_no, "fetching a leaf from the environment panicked".into()));
+                    };
                     if let Ok(model) = self.set_members(&h) {
                         let set = BDDSet::from_bdd(&h, b, &self.env);
                         self.ext.insert(new_id, SetSlot { set, model });
@@ -2301,7 +2336,9 @@ impl<'p> Exec<'p, NWorld> {
                 }
             }
             Op::Convert(sel) => {
-                let h = &self.handles[&self.pick_id(*sel)];
+                let Some(h) = self.handles.get(&self.pick_id(*sel)) else {
+                    return Ok(true);
+                };
                 let conv: BDD<usize> = BDD::<usize>::from(h.rc.as_ref().clone());
                 bump(&mut self.stats, "probe.convert");
                 if self.prop() == "C02" {
